@@ -1649,8 +1649,16 @@ def check_c17(idx: Index, tier: str, res: Result) -> None:
         m = {const_str(k): v for k, v in zip(rdict.keys, rdict.values)}
         from ..util import deref
         tv = m["timeout"]
-        is_units = tv is d or (isinstance(tv, ast.Name) and any(isinstance(a_, ast.Assign) and a_.value is d and isinstance(a_.targets[0], ast.Name)
-                                                                 and a_.targets[0].id == tv.id for a_ in walk_no_nested(create.node)))
+        # the units dict itself, or a local it was bound to - possibly through further plain copies (timeout = normalised = {...})
+        chain = tv
+        for _hop in range(4):
+            if chain is d or not isinstance(chain, ast.Name):
+                break
+            nxt = [a_.value for a_ in walk_no_nested(create.node) if isinstance(a_, ast.Assign) and isinstance(a_.targets[0], ast.Name) and a_.targets[0].id == chain.id]
+            if not nxt:
+                break
+            chain = nxt[-1]
+        is_units = chain is d
         tm = deref(create.node, m["time"])
         ok = is_units and isinstance(tm, ast.Call) and call_name(tm) in ("now", "utcnow")
     res.check("UNITS", "instance record = {instance, time: now(), timeout: timeout}", ok, create.loc(), create.qual,
@@ -1703,7 +1711,9 @@ def check_c17(idx: Index, tier: str, res: Result) -> None:
             if call_name(c) == "reconstruct_instance":
                 nsite += 1
                 pairs = list(zip(rp, c.args)) + [(k.arg, k.value) for k in c.keywords if k.arg]
+                from ..util import deref as _deref_wr
                 for p, a in pairs:
+                    a = _deref_wr(fi.node, a)                  # instance_id = state.instance_id ... reconstruct_instance(instance_id, ...)
                     attr = a.attr if isinstance(a, ast.Attribute) else None
                     res.check("WIRING", "%s: %s <- .%s" % (fi.qual, p, attr), expect.get(p) == attr, fi.loc(c), fi.qual, src(c)[:120],
                               "reconstruct_instance parameter %s receives %s" % (p, src(a)),
